@@ -524,6 +524,11 @@ func checkMain(args []string) int {
 
 	// ---- violations: dedupe, replay natively, classify ----
 	os.MkdirAll(filepath.Join(verifDir, "replays"), 0755)
+	if old, _ := filepath.Glob(filepath.Join(verifDir, "replays", id+"-*.json")); len(old) > 0 {
+		for _, f := range old {
+			os.Remove(f)
+		}
+	}
 	type group struct {
 		recs []violRec
 	}
@@ -639,6 +644,12 @@ func checkMain(args []string) int {
 		}
 	}
 
+	advPool := map[string]bool{}
+	for _, o := range obligs {
+		if o.PoolMode == 1 {
+			advPool[o.Harness] = true
+		}
+	}
 	// ---- translation validation of sampled passing paths ----
 	validated, mismatched := 0, 0
 	var mismatchNotes []string
@@ -663,6 +674,9 @@ func checkMain(args []string) int {
 				ok := o.Outcome == "ok"
 				if ok {
 					for tag, hex := range ss[i].Obs {
+						if advPool[ss[i].Harness] && tag != "fresh" {
+							continue // outputs after an adversarial pool choice need not be what the real pool does
+						}
 						if o.Obs[tag] != hex {
 							ok = false
 						}
@@ -817,11 +831,14 @@ func checkMain(args []string) int {
 	for _, l := range violLines {
 		fmt.Println(l)
 	}
+	lastRun.validated, lastRun.mismatched, lastRun.inconclusive, lastRun.paths = validated, mismatched, inconclusive, agg.paths
 	if nViol > 0 {
 		return 1
 	}
 	return 0
 }
+
+var lastRun struct{ validated, mismatched, inconclusive, paths int }
 
 func unhex(h string) string {
 	var parts []string
